@@ -145,6 +145,17 @@ pub fn pick_ordinates(cx: &mut Cx, xs: &[f64], reduced: bool) -> (Vec<f64>, &'st
             let base: f64 = [1.0, 1e9, -0.3][cx.choose(3)];
             return ((0..n).map(|_| f64::from_bits(base.to_bits() + [0u64, 1, 5, 2][cx.choose(4)])).collect(), "alphabet");
         }
+        // (only on grids of ordinary size and spacing: with widths of 1e-17 or offsets of 1e6 the exact spline's own coefficients
+        // leave the double range)
+        let ordinary = xs.windows(2).all(|w| w[1] - w[0] >= 0.05) && xs.iter().all(|x| x.abs() <= 1e3);
+        if n >= 4 && ordinary && cx.flag() {
+            // an ordinary ramp with one ordinate 150..170 orders of magnitude away (first or last knot): the secants elsewhere must
+            // not be affected by the steepest one
+            let big = [1e170, -1e150][cx.choose(2)];
+            let at_end = cx.flag();
+            let step = [1.0, 0.0, -2.0][cx.choose(3)];
+            return ((0..n).map(|i| if (at_end && i == n - 1) || (!at_end && i == 0) { big } else { 1.0 + step * i as f64 + if i % 2 == 1 { 0.5 } else { 0.0 } }).collect(), "alphabet");
+        }
         return ((0..n).map(|_| *cx.pick(&Y_ALPHA)).collect(), "alphabet");
     }
     if n > 6 {
